@@ -1,5 +1,705 @@
-//! C03 (stub)
-pub fn main(sub: &str, _args: &[String]) -> i32 {
-    eprintln!("unknown subcommand {}", sub);
-    2
+//! C03 - parsing and printing are total.
+//!
+//! Sub-commands (none of them judges anything; `spec/Trace_Cost.tla` does):
+//!   doc-cost-worker  --file <utf8 file> | --batch <framed file> [--skip k]
+//!        runs the pipeline from_raw -> Display -> pretty -> DOM walk (twice: raw and text-expanded
+//!        context) IN THIS PROCESS on a thread with an 8 MiB stack, one result line per input.
+//!        A Rust panic is reported (`{"outcome":"panic"}`) and ends the process with exit code 101;
+//!        a stack overflow / abort kills the process with a signal, which the parent sees.
+//!   doc-cost-run     --in <ndjson|REPLAY file with "text":[cps]> --out <ndjson events>
+//!                    [--limit-ms 5000] [--jobs 8] [--chunk 256] [--family-default garbage]
+//!        runs every input in child processes (`current_exe() doc-cost-worker --batch ...`) with a
+//!        wall-clock limit per input and records ok / err / panic / abort(signal) / timeout.
+//!   doc-cost-garbage --seed N --count K --out <ndjson {"family":"garbage","n":i,"text":[cps],"gen":..}>
+//!        seeded hostile-input generators (markup alphabet, char-level splices of seed documents,
+//!        token-level mutations of seed documents).
+use crate::util::*;
+use rand::rngs::StdRng;
+use rand::{Rng, SeedableRng};
+use serde_json::{json, Value as J};
+use std::io::{BufRead, BufReader, Read, Write};
+use std::process::{Child, Command, Stdio};
+use std::sync::mpsc;
+use std::sync::{Arc, Mutex};
+use std::time::{Duration, Instant};
+use xml_dom::{AsNode, Attr, CharacterData, Document, DocumentType, Node, PrettyPrint, XmlNode};
+
+pub const STACK_BYTES: usize = 8 * 1024 * 1024;
+const TEXT_INLINE_MAX: usize = 4000;
+
+pub fn main(sub: &str, args: &[String]) -> i32 {
+    match sub {
+        "doc-cost-worker" => worker(args),
+        "doc-cost-run" => run(args),
+        "doc-cost-garbage" => garbage(args),
+        _ => {
+            eprintln!("unknown subcommand {}", sub);
+            2
+        }
+    }
+}
+
+// ------------------------------------------------------------------------------------------------
+// the pipeline under observation
+
+/// Walk the whole DOM through the public API with an explicit stack (so that the walk itself cannot
+/// exhaust the call stack), forcing the lazily computed values.
+fn walk(doc: &xml_dom::XmlDocument) -> usize {
+    let mut seen = 0usize;
+    let mut stack: Vec<XmlNode> = vec![doc.as_node()];
+    if let Some(dt) = doc.doc_type() {
+        let _ = dt.name();
+        for e in dt.entities().iter() {
+            let _ = e.node_name();
+            let _ = e.node_value();
+            seen += 1;
+        }
+        for n in dt.notations().iter() {
+            let _ = n.node_name();
+            let _ = n.node_value();
+            seen += 1;
+        }
+    }
+    while let Some(n) = stack.pop() {
+        seen += 1;
+        let _ = n.node_name();
+        let _ = n.node_value();
+        let _ = n.node_type();
+        match &n {
+            XmlNode::Text(t) => {
+                let _ = t.data();
+            }
+            XmlNode::CData(t) => {
+                let _ = t.data();
+            }
+            XmlNode::Comment(t) => {
+                let _ = t.data();
+            }
+            XmlNode::ExpandedText(t) => {
+                let _ = t.data();
+            }
+            XmlNode::EntityReference(r) => {
+                let _ = r.value();
+            }
+            XmlNode::Attribute(a) => {
+                let _ = a.value();
+                let _ = a.specified();
+            }
+            _ => {}
+        }
+        if let Some(m) = n.attributes() {
+            for a in m.iter() {
+                let _ = a.name();
+                let _ = a.value();
+                stack.push(a.as_node());
+            }
+        }
+        for c in n.child_nodes().iter() {
+            stack.push(c);
+        }
+    }
+    seen
+}
+
+fn pipeline_one(text: &str, expanded: bool) -> bool {
+    let parsed = if expanded {
+        xml_dom::XmlDocument::from_raw_with_context(
+            text,
+            xml_dom::Context::from_text_expanded(true),
+        )
+    } else {
+        xml_dom::XmlDocument::from_raw(text)
+    };
+    match parsed {
+        Ok((_rest, doc)) => {
+            let s = doc.to_string();
+            std::hint::black_box(s.len());
+            let mut buf: Vec<u8> = Vec::new();
+            let _ = doc.pretty(&mut buf);
+            std::hint::black_box(buf.len());
+            std::hint::black_box(walk(&doc));
+            true
+        }
+        Err(_) => false,
+    }
+}
+
+/// true = a document was returned, false = an error was returned
+fn pipeline(text: &str) -> bool {
+    let a = pipeline_one(text, false);
+    let _b = pipeline_one(text, true);
+    a
+}
+
+fn panic_message(e: Box<dyn std::any::Any + Send>) -> String {
+    if let Some(s) = e.downcast_ref::<&str>() {
+        s.to_string()
+    } else if let Some(s) = e.downcast_ref::<String>() {
+        s.clone()
+    } else {
+        "panic".to_string()
+    }
+}
+
+// ------------------------------------------------------------------------------------------------
+// worker
+
+/// Batch file framing: for each input a header line `<byte length>\n`, the UTF-8 bytes, `\n`.
+fn read_batch(path: &str) -> Vec<String> {
+    let mut all = Vec::new();
+    let mut f = BufReader::new(std::fs::File::open(path).unwrap_or_else(|e| {
+        eprintln!("cannot open {}: {}", path, e);
+        std::process::exit(2)
+    }));
+    loop {
+        let mut hdr = String::new();
+        match f.read_line(&mut hdr) {
+            Ok(0) => break,
+            Ok(_) => {}
+            Err(_) => break,
+        }
+        let len: usize = match hdr.trim().parse() {
+            Ok(l) => l,
+            Err(_) => break,
+        };
+        let mut buf = vec![0u8; len + 1];
+        if f.read_exact(&mut buf).is_err() {
+            break;
+        }
+        buf.pop();
+        all.push(String::from_utf8(buf).unwrap_or_default());
+    }
+    all
+}
+
+fn write_batch(path: &str, texts: &[&str]) {
+    let mut w = open_out(path);
+    for t in texts {
+        writeln!(w, "{}", t.len()).unwrap();
+        w.write_all(t.as_bytes()).unwrap();
+        w.write_all(b"\n").unwrap();
+    }
+    w.flush().unwrap();
+}
+
+fn worker(args: &[String]) -> i32 {
+    let inputs: Vec<String> = if let Some(p) = arg_value(args, "--file") {
+        let mut s = String::new();
+        if p == "-" {
+            std::io::stdin().read_to_string(&mut s).unwrap();
+        } else {
+            s = std::fs::read_to_string(p).unwrap_or_else(|e| {
+                eprintln!("cannot read {}: {}", p, e);
+                std::process::exit(2)
+            });
+        }
+        vec![s]
+    } else if let Some(p) = arg_value(args, "--batch") {
+        read_batch(p)
+    } else {
+        eprintln!("doc-cost-worker --file <path> | --batch <path> [--skip k]");
+        return 2;
+    };
+    let skip: usize = arg_value(args, "--skip")
+        .and_then(|s| s.parse().ok())
+        .unwrap_or(0);
+    // One thread with an 8 MiB stack runs all inputs of the batch in order.  A panic unwinds that
+    // thread; it is reported for the input it was working on and the process exits with 101.
+    let cur = Arc::new(std::sync::atomic::AtomicUsize::new(skip));
+    let cur2 = cur.clone();
+    println!("{}", json!({"ready": true}));
+    let _ = std::io::stdout().flush();
+    let t_all = Instant::now();
+    let h = std::thread::Builder::new()
+        .stack_size(STACK_BYTES)
+        .spawn(move || {
+            let out = std::io::stdout();
+            for (i, text) in inputs.into_iter().enumerate().skip(skip) {
+                cur2.store(i, std::sync::atomic::Ordering::SeqCst);
+                let t0 = Instant::now();
+                let acc = pipeline(&text);
+                let us = t0.elapsed().as_micros() as u64;
+                let mut o = out.lock();
+                writeln!(o, "{}", json!({"i": i, "outcome": if acc {"ok"} else {"err"}, "us": us})).unwrap();
+                o.flush().unwrap();
+            }
+        })
+        .expect("spawn");
+    match h.join() {
+        Ok(()) => 0,
+        Err(e) => {
+            let i = cur.load(std::sync::atomic::Ordering::SeqCst);
+            println!(
+                "{}",
+                json!({"i": i, "outcome": "panic", "msg": panic_message(e),
+                       "us": t_all.elapsed().as_micros() as u64})
+            );
+            let _ = std::io::stdout().flush();
+            101
+        }
+    }
+}
+
+// ------------------------------------------------------------------------------------------------
+// parent
+
+#[derive(Clone)]
+struct Case {
+    family: String,
+    n: i64,
+    gen: Option<String>,
+    text: String,
+}
+
+#[derive(Clone, Default)]
+struct Obs {
+    outcome: String,
+    signal: i64,
+    ms: u64,
+    msg: Option<String>,
+}
+
+enum Line {
+    Ready,
+    Result(usize, String, Option<String>),
+    Eof,
+}
+
+fn spawn_worker(batch: &str, skip: usize) -> (Child, mpsc::Receiver<Line>) {
+    let exe = std::env::current_exe().expect("current_exe");
+    let mut child = Command::new(exe)
+        .arg("doc-cost-worker")
+        .arg("--batch")
+        .arg(batch)
+        .arg("--skip")
+        .arg(skip.to_string())
+        .stdin(Stdio::null())
+        .stdout(Stdio::piped())
+        .stderr(Stdio::null())
+        .spawn()
+        .expect("spawn worker");
+    let stdout = child.stdout.take().unwrap();
+    let (tx, rx) = mpsc::channel();
+    std::thread::spawn(move || {
+        let rd = BufReader::new(stdout);
+        for line in rd.lines() {
+            let line = match line {
+                Ok(l) => l,
+                Err(_) => break,
+            };
+            if let Ok(v) = serde_json::from_str::<J>(&line) {
+                if v.get("ready").is_some() {
+                    if tx.send(Line::Ready).is_err() {
+                        return;
+                    }
+                    continue;
+                }
+                let i = v["i"].as_u64().unwrap_or(u64::MAX) as usize;
+                let o = v["outcome"].as_str().unwrap_or("?").to_string();
+                let m = v["msg"].as_str().map(|s| s.to_string());
+                if tx.send(Line::Result(i, o, m)).is_err() {
+                    return;
+                }
+            }
+        }
+        let _ = tx.send(Line::Eof);
+    });
+    (child, rx)
+}
+
+fn exit_signal(st: &std::process::ExitStatus) -> Option<i32> {
+    use std::os::unix::process::ExitStatusExt;
+    st.signal()
+}
+
+/// Run one chunk of inputs; returns one observation per input.
+fn run_chunk(texts: &[&str], batch_path: &str, limit: Duration) -> Vec<Obs> {
+    write_batch(batch_path, texts);
+    let mut obs: Vec<Obs> = vec![Obs::default(); texts.len()];
+    let mut next = 0usize; // first input without an observation
+    while next < texts.len() {
+        let (mut child, rx) = spawn_worker(batch_path, next);
+        let mut t0 = Instant::now();
+        loop {
+            match rx.recv_timeout(limit.saturating_sub(t0.elapsed())) {
+                Ok(Line::Ready) => {
+                    // process start-up and loading of the batch are not part of the call
+                    t0 = Instant::now();
+                }
+                Ok(Line::Result(i, outcome, msg)) => {
+                    if i != next {
+                        // protocol error: treat as tool failure of this input
+                        obs[next] = Obs { outcome: "toolerror".into(), signal: 0, ms: 0, msg: None };
+                        let _ = child.kill();
+                        let _ = child.wait();
+                        next += 1;
+                        break;
+                    }
+                    obs[i] = Obs {
+                        outcome: outcome.clone(),
+                        signal: 0,
+                        ms: t0.elapsed().as_millis() as u64,
+                        msg,
+                    };
+                    next = i + 1;
+                    t0 = Instant::now();
+                    if outcome == "panic" {
+                        let _ = child.wait();
+                        break;
+                    }
+                    if next >= texts.len() {
+                        let _ = child.wait();
+                        break;
+                    }
+                }
+                Ok(Line::Eof) => {
+                    // the worker died while working on `next` (or finished)
+                    let st = child.wait().expect("wait");
+                    if next < texts.len() {
+                        let ms = t0.elapsed().as_millis() as u64;
+                        if let Some(sig) = exit_signal(&st) {
+                            obs[next] = Obs { outcome: "abort".into(), signal: sig as i64, ms, msg: None };
+                        } else {
+                            obs[next] = Obs {
+                                outcome: "abort".into(),
+                                signal: -(st.code().unwrap_or(0) as i64),
+                                ms,
+                                msg: Some(format!("exit code {:?} without a result line", st.code())),
+                            };
+                        }
+                        next += 1;
+                    }
+                    break;
+                }
+                Err(mpsc::RecvTimeoutError::Timeout) => {
+                    let _ = child.kill();
+                    let _ = child.wait();
+                    obs[next] = Obs {
+                        outcome: "timeout".into(),
+                        signal: 0,
+                        ms: t0.elapsed().as_millis() as u64,
+                        msg: None,
+                    };
+                    next += 1;
+                    break;
+                }
+                Err(mpsc::RecvTimeoutError::Disconnected) => {
+                    let _ = child.kill();
+                    let _ = child.wait();
+                    obs[next] = Obs { outcome: "toolerror".into(), signal: 0, ms: 0, msg: None };
+                    next += 1;
+                    break;
+                }
+            }
+        }
+    }
+    obs
+}
+
+fn load_cases(path: &str, default_family: &str) -> Vec<Case> {
+    let mut cases = Vec::new();
+    let mut idx = 0i64;
+    for_each_case(path, |v| {
+        if v.get("text").is_none() {
+            return;
+        }
+        idx += 1;
+        let family = v["family"].as_str().unwrap_or(default_family).to_string();
+        let n = v["n"].as_i64().or_else(|| v["id"].as_i64()).unwrap_or(idx);
+        let gen = v["gen"].as_str().map(|s| s.to_string());
+        cases.push(Case { family, n, gen, text: cps_to_string(&v["text"]) });
+    });
+    cases
+}
+
+fn run(args: &[String]) -> i32 {
+    let inp = match arg_value(args, "--in") {
+        Some(p) => p,
+        None => {
+            eprintln!("doc-cost-run --in <file> --out <file> [--limit-ms 5000] [--jobs 8]");
+            return 2;
+        }
+    };
+    let outp = arg_value(args, "--out").unwrap_or("-");
+    let limit_ms: u64 = arg_value(args, "--limit-ms").and_then(|s| s.parse().ok()).unwrap_or(5000);
+    let jobs: usize = arg_value(args, "--jobs").and_then(|s| s.parse().ok()).unwrap_or(8).max(1);
+    let default_family = arg_value(args, "--family-default").unwrap_or("garbage");
+    let chunk_max: usize = arg_value(args, "--chunk").and_then(|s| s.parse().ok()).unwrap_or(256).max(1);
+    let cases = Arc::new(load_cases(inp, default_family));
+    let scratch = format!("{}.chunks.{}", if outp == "-" { "/verif/work/doc-cost" } else { outp }, std::process::id());
+    std::fs::create_dir_all(&scratch).expect("scratch dir");
+
+    // chunks: consecutive inputs, at most 256 inputs or ~1 MB of text each
+    let mut chunks: Vec<(usize, usize)> = Vec::new();
+    let mut start = 0usize;
+    let mut bytes = 0usize;
+    for (i, c) in cases.iter().enumerate() {
+        bytes += c.text.len();
+        if i + 1 - start >= chunk_max || bytes >= 1 << 20 {
+            chunks.push((start, i + 1));
+            start = i + 1;
+            bytes = 0;
+        }
+    }
+    if start < cases.len() {
+        chunks.push((start, cases.len()));
+    }
+    let queue = Arc::new(Mutex::new(chunks.into_iter().enumerate().collect::<Vec<_>>()));
+    let results: Arc<Mutex<Vec<Option<Obs>>>> = Arc::new(Mutex::new(vec![None; cases.len()]));
+    let mut handles = Vec::new();
+    for j in 0..jobs {
+        let queue = queue.clone();
+        let cases = cases.clone();
+        let results = results.clone();
+        let scratch = scratch.clone();
+        handles.push(std::thread::spawn(move || loop {
+            let item = queue.lock().unwrap().pop();
+            let (_k, (a, b)) = match item {
+                Some(x) => x,
+                None => break,
+            };
+            let texts: Vec<&str> = cases[a..b].iter().map(|c| c.text.as_str()).collect();
+            let path = format!("{}/job{}.batch", scratch, j);
+            let obs = run_chunk(&texts, &path, Duration::from_millis(limit_ms));
+            let mut r = results.lock().unwrap();
+            for (k, o) in obs.into_iter().enumerate() {
+                r[a + k] = Some(o);
+            }
+        }));
+    }
+    for h in handles {
+        let _ = h.join();
+    }
+    let _ = std::fs::remove_dir_all(&scratch);
+
+    let mut w = open_out(outp);
+    let results = results.lock().unwrap();
+    let mut tool_errors = 0;
+    for (c, o) in cases.iter().zip(results.iter()) {
+        let o = o.clone().unwrap_or(Obs { outcome: "toolerror".into(), ..Default::default() });
+        if o.outcome == "toolerror" || o.outcome == "?" {
+            tool_errors += 1;
+        }
+        let cps: Vec<u32> = c.text.chars().map(|ch| ch as u32).collect();
+        let inline = cps.len() <= TEXT_INLINE_MAX;
+        let ev = json!({
+            "event": "call",
+            "family": c.family,
+            "n": c.n,
+            "len": cps.len(),
+            "outcome": o.outcome,
+            "signal": o.signal,
+            "ms": o.ms,
+            "text_omitted": !inline,
+            "text": if inline { &cps[..] } else { &cps[..0] },
+            "text_prefix": if inline { &cps[..0] } else { &cps[..200] },
+            "gen": c.gen.clone().unwrap_or_default(),
+            "msg": o.msg.clone().unwrap_or_default(),
+        });
+        writeln!(w, "{}", ev).unwrap();
+    }
+    w.flush().unwrap();
+    if tool_errors > 0 {
+        eprintln!("{} inputs could not be run", tool_errors);
+        return 2;
+    }
+    0
+}
+
+// ------------------------------------------------------------------------------------------------
+// garbage generators
+
+const ALPHABET: &[&str] = &[
+    "<", ">", "/", "?", "!", "[", "]", "-", "&", ";", "#", "%", "\"", "'", "=", "x", "a", ":", " ",
+    "\n", "<!DOCTYPE", "<!ENTITY", "<!ATTLIST", "<!ELEMENT", "<![CDATA[", "]]>", "<!--", "-->",
+    "<?xml", "?>", "&#", "&#x", "%a;", "&a;", "SYSTEM", "PUBLIC", "NDATA", "#PCDATA", "#REQUIRED",
+    "(", "|", ")*", ")", ",", "1", "é", "\u{3042}", "\u{1F600}", "\u{FFFD}", "\u{85}", "\t",
+    "CDATA", "ID", "#IMPLIED", "#FIXED", "EMPTY", "ANY", "xmlns", "xmlns:a", "version", "encoding",
+    "standalone", "<a", "</a", "/>", "a:b", " a=\"", " r ", "<r>", "</r>", "]>", " [",
+];
+
+const SEEDS: &[&str] = &[
+    "<?xml version=\"1.0\" encoding=\"UTF-8\" standalone=\"yes\"?>\n<!-- c --><?p d?>\n<r a=\"1\" b='2'><a>x</a><b/>t</r>\n<!-- e -->",
+    "<!DOCTYPE r [<!ENTITY e \"v\"><!ENTITY f \"&e;w\">]><r a=\"&f;\">&f;&e;</r>",
+    "<!DOCTYPE r [<!NOTATION n SYSTEM \"s\"><!ENTITY u SYSTEM \"x.png\" NDATA n><!ENTITY g PUBLIC \"p\" \"s\">]><r/>",
+    "<!DOCTYPE r [<!ELEMENT r ((a|b)*,(c,d?)+,e)><!ELEMENT a (#PCDATA|b)*><!ELEMENT b EMPTY><!ELEMENT c ANY>]><r><a/></r>",
+    "<!DOCTYPE r [<!ATTLIST r a CDATA #IMPLIED b (x|y) \"x\" c ID #REQUIRED d NMTOKENS #FIXED \"p q\" e NOTATION (n|m) #IMPLIED>]><r c=\"i\"/>",
+    "<r><![CDATA[<x>&y;]]>&#65;&#x42;&lt;&gt;&amp;&apos;&quot;</r>",
+    "<p:r xmlns:p=\"u\" xmlns=\"d\" p:a=\"1\"><c xmlns=\"\"><p:d/></c></p:r>",
+    "<!DOCTYPE r SYSTEM \"r.dtd\" [<!-- c --><?p d?> <!ENTITY e 'a\"b'>]>\n<r>&e;</r>",
+    "<!DOCTYPE r PUBLIC \"-//X//Y\" \"r.dtd\"><r xml:lang=\"en\" xml:space=\"preserve\"> <a> </a> </r>",
+    "<r a=\" x  y\tz\n\" b=\"&#10;&#x20;\">\u{e9}\u{3042}\u{1F600}<a><b><c><d>deep</d></c></b></a></r>",
+    "<!DOCTYPE r [<!ENTITY a \"&#38;#60;\"><!ENTITY b '&#37;'><!ATTLIST r d CDATA \"&a;x\">]><r>&a;&b;</r>",
+    "<?xml version=\"1.0\"?><!DOCTYPE r [<!ELEMENT r (#PCDATA)><!ATTLIST r xmlns CDATA #FIXED \"u\">]><r><?q?><!----></r>",
+];
+
+fn tokens(s: &str) -> Vec<String> {
+    // coarse XML tokens: markup delimiters, names, quoted strings, single other chars
+    let cs: Vec<char> = s.chars().collect();
+    let mut out = Vec::new();
+    let mut i = 0;
+    let delims = [
+        "<![CDATA[", "<!DOCTYPE", "<!ELEMENT", "<!ATTLIST", "<!ENTITY", "<!NOTATION", "<!--", "-->", "]]>",
+        "<?", "?>", "</", "/>", "&#x", "&#",
+    ];
+    'outer: while i < cs.len() {
+        for d in delims.iter() {
+            let dc: Vec<char> = d.chars().collect();
+            if cs[i..].starts_with(&dc) {
+                out.push(d.to_string());
+                i += dc.len();
+                continue 'outer;
+            }
+        }
+        let c = cs[i];
+        if c.is_alphanumeric() || c == '_' {
+            let mut j = i;
+            while j < cs.len() && (cs[j].is_alphanumeric() || "_-.:".contains(cs[j])) {
+                j += 1;
+            }
+            out.push(cs[i..j].iter().collect());
+            i = j;
+        } else if c == '"' || c == '\'' {
+            let mut j = i + 1;
+            while j < cs.len() && cs[j] != c {
+                j += 1;
+            }
+            let j = (j + 1).min(cs.len());
+            out.push(cs[i..j].iter().collect());
+            i = j;
+        } else {
+            out.push(c.to_string());
+            i += 1;
+        }
+    }
+    out
+}
+
+fn gen_alphabet(rng: &mut StdRng) -> String {
+    let len = rng.gen_range(1..=200usize);
+    let mut s = String::new();
+    let mut count = 0;
+    while count < len {
+        let t = ALPHABET[rng.gen_range(0..ALPHABET.len())];
+        s.push_str(t);
+        count += t.chars().count();
+    }
+    s
+}
+
+fn gen_splice(rng: &mut StdRng) -> String {
+    let mut cs: Vec<char> = SEEDS[rng.gen_range(0..SEEDS.len())].chars().collect();
+    let ops = rng.gen_range(1..=4);
+    for _ in 0..ops {
+        if cs.is_empty() {
+            break;
+        }
+        match rng.gen_range(0..6) {
+            0 => {
+                // delete a range
+                let a = rng.gen_range(0..cs.len());
+                let b = (a + rng.gen_range(1..=8)).min(cs.len());
+                cs.drain(a..b);
+            }
+            1 => {
+                // duplicate a range in place
+                let a = rng.gen_range(0..cs.len());
+                let b = (a + rng.gen_range(1..=16)).min(cs.len());
+                let part: Vec<char> = cs[a..b].to_vec();
+                let at = rng.gen_range(0..=cs.len());
+                for (k, c) in part.into_iter().enumerate() {
+                    cs.insert(at + k, c);
+                }
+            }
+            2 => {
+                // truncate
+                let a = rng.gen_range(0..=cs.len());
+                cs.truncate(a);
+            }
+            3 => {
+                // splice a range of another seed
+                let other: Vec<char> = SEEDS[rng.gen_range(0..SEEDS.len())].chars().collect();
+                let a = rng.gen_range(0..other.len());
+                let b = (a + rng.gen_range(1..=24)).min(other.len());
+                let at = rng.gen_range(0..=cs.len());
+                for (k, c) in other[a..b].iter().enumerate() {
+                    cs.insert(at + k, *c);
+                }
+            }
+            4 => {
+                // replace one char by an alphabet token
+                let a = rng.gen_range(0..cs.len());
+                let t: Vec<char> = ALPHABET[rng.gen_range(0..ALPHABET.len())].chars().collect();
+                cs.splice(a..a + 1, t);
+            }
+            _ => {
+                // swap two chars
+                let a = rng.gen_range(0..cs.len());
+                let b = rng.gen_range(0..cs.len());
+                cs.swap(a, b);
+            }
+        }
+    }
+    cs.into_iter().collect()
+}
+
+fn gen_token(rng: &mut StdRng) -> String {
+    let mut ts = tokens(SEEDS[rng.gen_range(0..SEEDS.len())]);
+    let ops = rng.gen_range(1..=3);
+    for _ in 0..ops {
+        if ts.is_empty() {
+            break;
+        }
+        match rng.gen_range(0..5) {
+            0 => {
+                let a = rng.gen_range(0..ts.len());
+                ts.remove(a);
+            }
+            1 => {
+                let a = rng.gen_range(0..ts.len());
+                let t = ts[a].clone();
+                ts.insert(a, t);
+            }
+            2 => {
+                let a = rng.gen_range(0..ts.len());
+                let b = rng.gen_range(0..ts.len());
+                ts.swap(a, b);
+            }
+            3 => {
+                let a = rng.gen_range(0..ts.len());
+                ts[a] = ALPHABET[rng.gen_range(0..ALPHABET.len())].to_string();
+            }
+            _ => {
+                let other = tokens(SEEDS[rng.gen_range(0..SEEDS.len())]);
+                let a = rng.gen_range(0..=ts.len());
+                ts.insert(a, other[rng.gen_range(0..other.len())].clone());
+            }
+        }
+    }
+    ts.concat()
+}
+
+fn garbage(args: &[String]) -> i32 {
+    let seed: u64 = arg_value(args, "--seed").and_then(|s| s.parse().ok()).unwrap_or(1);
+    let count: usize = arg_value(args, "--count").and_then(|s| s.parse().ok()).unwrap_or(1000);
+    let outp = arg_value(args, "--out").unwrap_or("-");
+    let mut rng = StdRng::seed_from_u64(seed);
+    let mut w = open_out(outp);
+    // the unmutated seeds first: they must be fine, and they show that the seed corpus is accepted
+    let mut n = 0usize;
+    for s in SEEDS {
+        n += 1;
+        writeln!(w, "{}", json!({"family": "garbage", "n": n, "gen": "seed", "text": string_to_cps(s)})).unwrap();
+    }
+    while n < count {
+        n += 1;
+        let (gen, text) = match rng.gen_range(0..3) {
+            0 => ("alphabet", gen_alphabet(&mut rng)),
+            1 => ("splice", gen_splice(&mut rng)),
+            _ => ("token", gen_token(&mut rng)),
+        };
+        writeln!(w, "{}", json!({"family": "garbage", "n": n, "gen": gen, "text": string_to_cps(&text)})).unwrap();
+    }
+    w.flush().unwrap();
+    0
 }
